@@ -90,10 +90,30 @@ type nodeProfile struct {
 	// Simulate: every transaction is first run through Simulate (gas estimation) and CheckTx (mempool admission), as a node
 	// serving clients does, before it is delivered in the block.
 	Simulate bool `json:"simulate"`
+	// Config names the node operator's configuration (app.toml / flags / environment): "" = nothing set, "tight" and "loose"
+	// set every server option of the SDK and Ethermint servers that is not part of consensus to small / large values.
+	Config string `json:"config"`
+}
+
+// nodeConfigs are operator-side settings: JSON-RPC limits, API switches, mempool admission, caches. None is consensus state.
+var nodeConfigs = map[string]map[string]interface{}{
+	"tight": {
+		"json-rpc.enable": true, "json-rpc.api": "eth", "json-rpc.gas-cap": uint64(30000), "json-rpc.evm-timeout": "1ns", "json-rpc.txfee-cap": 0.000001,
+		"json-rpc.filter-cap": int32(1), "json-rpc.logs-cap": int32(1), "json-rpc.block-range-cap": int32(1), "json-rpc.http-timeout": "1ns", "json-rpc.http-idle-timeout": "1ns",
+		"evm.max-tx-gas-wanted": uint64(1), "api.enable": false, "grpc.enable": false, "grpc-web.enable": false, "minimum-gas-prices": "1000000000atele",
+		"iavl-cache-size": 1, "inter-block-cache": false, "index-events": []string{"message.action"}, "min-retain-blocks": uint64(1), "telemetry.enabled": false,
+		"state-sync.snapshot-interval": uint64(1), "state-sync.snapshot-keep-recent": uint32(1), "trace": false,
+	},
+	"loose": {
+		"json-rpc.enable": true, "json-rpc.api": "eth,net,web3,debug,personal,miner,txpool", "json-rpc.gas-cap": uint64(1) << 62, "json-rpc.evm-timeout": "1000h", "json-rpc.txfee-cap": 1e12,
+		"json-rpc.filter-cap": int32(1 << 30), "json-rpc.logs-cap": int32(1 << 30), "json-rpc.block-range-cap": int32(1 << 30), "json-rpc.http-timeout": "1000h", "json-rpc.http-idle-timeout": "1000h",
+		"evm.max-tx-gas-wanted": uint64(1) << 62, "api.enable": true, "api.enabled-unsafe-cors": true, "grpc.enable": true, "grpc-web.enable": true, "minimum-gas-prices": "",
+		"iavl-cache-size": 10_000_000, "inter-block-cache": true, "index-events": []string{}, "min-retain-blocks": uint64(0), "telemetry.enabled": true, "trace": true,
+	},
 }
 
 func (p nodeProfile) String() string {
-	return fmt.Sprintf("restartEvery=%d+%d simulate=%v", p.RestartEvery, p.RestartOffset, p.Simulate)
+	return fmt.Sprintf("restartEvery=%d+%d simulate=%v config=%q", p.RestartEvery, p.RestartOffset, p.Simulate, p.Config)
 }
 
 // apply installs the profile on a chain.
@@ -118,9 +138,23 @@ func (p nodeProfile) apply(c *kit.Chain) {
 
 // runScenario builds a 2-chain world, attaches the tracer and performs `steps` tape-driven steps on nodes of the given
 // profile. It returns the trace (one line per ABCI response of every chain) and the message-kind histogram.
-func runScenario(ch Chooser, steps int, prof nodeProfile) ([]string, map[string]int) {
-	var trace []string
+func runScenario(ch Chooser, steps int, prof nodeProfile) (trace []string, kinds map[string]int) {
 	s := &scen{ch: ch, kinds: map[string]int{}}
+	kinds = s.kinds
+	if prof != (nodeProfile{}) {
+		// a replica replays a script the reference node (empty profile) has already completed: a step of the script that cannot
+		// be carried out on the replica (a set-up call or an expected outcome fails, the tape no longer fits) is itself a
+		// divergence between the nodes, so it ends the replica's trace instead of being reported as a harness problem
+		defer func() {
+			if p := recover(); p != nil {
+				he, ok := p.(kit.HarnessError)
+				if !ok {
+					panic(p)
+				}
+				trace = append(trace, "REPLICA ABORTED: "+he.Msg)
+			}
+		}()
+	}
 	seed := []byte{byte(ch.Intn("seed0", 256)), byte(ch.Intn("seed1", 256))}
 	mut := func(a *app.Teleport, g map[string]json.RawMessage) {
 		var gov govtypes.GenesisState
@@ -138,6 +172,7 @@ func runScenario(ch Chooser, steps int, prof nodeProfile) ([]string, map[string]
 	s.w = bridge.NewWorldOpts(2, seed, bridge.WorldOpts{
 		GenesisMutator: mut,
 		ExtraCoins:     sdk.NewCoins(sdk.NewInt64Coin("acoin", 1_000_000), sdk.NewInt64Coin("bcoin", 1_000_000), sdk.NewInt64Coin("ccoin", 1_000_000)),
+		NodeConfig:     nodeConfigs[prof.Config],
 		OnChain: func(c *kit.Chain) {
 			c.Trace = func(l string) { trace = append(trace, l) }
 			prof.apply(c)
